@@ -22,7 +22,7 @@ func init() {
 			"a function that recovers a panic into a non-nil error without clobbering a returned error, so a panicking service neither stops the loop nor yields success. RefreshWorker (R4) in the " +
 			"timer case exactly one refresh, its error handed to the ErrorHandler exactly once iff non-nil, and every back edge recomputes the delay from schedule.UntilNext(clock.Now()); the done " +
 			"case returns; refresh derives its context from the constructor, defers the cancel and calls Refresh once; Shutdown closes done before the optional, flag-guarded final refresh whose error " +
-			"is returned wrapped. Not decided: timing against a real clock.",
+			"is returned wrapped; nothing but the RefreshOnShutdown flag decides whether the final refresh happens (no other guard, no flag-set path around it). Not decided: timing against a real clock.",
 		Technique: "CFG path event counting, loop-shape recognition, guard dominance, recover-path dataflow on go/ssa",
 		Note:      "Trusted: go/ssa, Go's defer/recover semantics, select semantics.",
 		DesignRef: "DESIGN.md section 4, C18",
@@ -38,7 +38,7 @@ func runC18(c *Ctx) {
 	c.L.Floor("C18.shutdown.panic-isolation", 3)
 	c.L.Floor("C18.refresh.loop", 6)
 	c.L.Floor("C18.refresh.context", 2)
-	c.L.Floor("C18.refresh.shutdown", 3)
+	c.L.Floor("C18.refresh.shutdown", 4)
 
 	handle := c.fn("service", "SignalHandler.Handle")
 	shut := c.fn("service", "SignalHandler.shutdown")
@@ -801,6 +801,54 @@ func c18Refresh(c *Ctx) {
 				}
 			}
 			c.check(okFlag, "C18.refresh.shutdown", sd, "the final refresh runs only under refrOnShutdown", rf, "a single final Refresh when RefreshOnShutdown is set")
+			// ... and always under it: no other condition stands between the
+			// flag and the refresh, and a return that the refresh did not
+			// precede happens only with the flag unset.
+			extra := ""
+			isFlag := func(v ssa.Value) bool {
+				name, base, isF := core.IsLoadOfField(v)
+				return isF && name == "refrOnShutdown" && base == w
+			}
+			for _, g := range core.GuardsOf(rf) {
+				cond, _ := core.StripNot(g.Cond, g.Truth)
+				if !isFlag(cond) {
+					extra = "the refresh is also guarded by " + core.Describe(cond)
+				}
+			}
+			// paths from the entry on which every test of the (immutable) flag
+			// finds it set, cut at the refresh
+			seen := map[*ssa.BasicBlock]bool{}
+			var dfs func(b *ssa.BasicBlock)
+			dfs = func(b *ssa.BasicBlock) {
+				if seen[b] {
+					return
+				}
+				seen[b] = true
+				for _, in := range b.Instrs {
+					if in == ssa.Instruction(rf) {
+						return
+					}
+					if ret, isRet := in.(*ssa.Return); isRet && extra == "" {
+						extra = "the return at " + c.ipos(ret) + " is reachable without the refresh although refrOnShutdown is set"
+					}
+				}
+				if iff, isIf := b.Instrs[len(b.Instrs)-1].(*ssa.If); isIf {
+					cond, truth := core.StripNot(iff.Cond, true)
+					if isFlag(cond) {
+						if truth {
+							dfs(b.Succs[0])
+						} else {
+							dfs(b.Succs[1])
+						}
+						return
+					}
+				}
+				for _, sb := range b.Succs {
+					dfs(sb)
+				}
+			}
+			dfs(sd.Blocks[0])
+			c.check(extra == "", "C18.refresh.shutdown", sd, "with refrOnShutdown set the final refresh runs on every path", rf, "nothing but the flag decides whether the final Refresh happens: "+extra)
 			mn, mx, ok := 0, 0, false
 			for _, ret := range core.Returns(sd) {
 				a, b, k := core.CountOnPaths(sd, nil, ret, func(in ssa.Instruction) bool { return in == ssa.Instruction(rf) })
@@ -822,6 +870,10 @@ func c18Refresh(c *Ctx) {
 						okErr = true
 					}
 					if lf.V == ssa.Value(rf) {
+						okErr = true
+					}
+					// errors.Annotate(err, "...: %w") of the module: nil for nil, fmt.Errorf otherwise
+					if call, ok := lf.V.(*ssa.Call); ok && strings.HasSuffix(core.CalleeName(&call.Call), "golibs/errors.Annotate") && len(call.Call.Args) > 0 && call.Call.Args[0] == ssa.Value(rf) {
 						okErr = true
 					}
 				}
